@@ -331,11 +331,15 @@ pub fn contains_any<const C: usize>(set: &HashSet<String>, elements: [&'static s
 
 
 # ----------------------------------------------------------------------------- replay on the real compiler
-WINDOW_SETUP = "create table t(g text, b integer, x integer); insert into t values ('a',1,10),('a',2,30),('a',3,20),('b',1,5),('c',1,8),('c',2,8);"
+WINDOW_SETUP = ("create table t(g text, b integer, x integer); insert into t values ('a',1,10),('a',2,30),('a',3,20),('b',1,5),('c',1,8),('c',2,8);"
+                "create table u(id integer, a integer, c integer);" + "".join("insert into u values (%d,%d,%d);" % (i, i * 10, i * 100) for i in range(1, 10)))
 # (program, expected rows): a window function / aggregation used as the argument of an aggregation or of another window function
 WINDOW_CASES = [
     ("from t\ngroup g (sort b | window rolling:2 (derive {m = average x}))\ngroup g (aggregate {mm = max m})\nsort g\n", [("a", 25.0), ("b", 5.0), ("c", 8.0)]),
     ("from t\ngroup g (aggregate {s = sum x})\nderive {r = rank s}\nsort g\nselect {g, s}\n", [("a", 60), ("b", 5), ("c", 16)]),
+    # a window column derived AFTER a take sees only the taken rows
+    ("from u\nsort a\ntake 3..5\nderive {r = row_number this}\nfilter r == 1\nselect {id}\n", [(3,)]),
+    ("from u\nsort {-a}\ntake 4\nderive {tot = sum c}\nselect {id, tot}\nsort id\n", [(6, 3000), (7, 3000), (8, 3000), (9, 3000)]),
 ]
 
 
@@ -355,7 +359,7 @@ def replay(failure):
     Rows about complexity (GR / CM / IC): windowed values used by aggregations must come from a sub-query (executed on SQLite)."""
     import setops_reach
     lab = failure.get("obligation", "").split(".", 1)[-1]
-    if lab.startswith(("GR", "CM", "IC")):
+    if lab.startswith(("GR", "CM", "IC", "RO")):
         for src, exp in WINDOW_CASES:
             r = _window_try(src, exp)
             if r["failing"]:
